@@ -9,6 +9,8 @@ R11.4 one source of truth: iteration, integer/negative/slice indexing, length an
 R11.5 the atom-by-atom name check dominates the stores of Molecule.__init__ and compares residue and atom name
       under one running index
 R11.7 the views of a System (iteration, indexing, length, composition, the instance generator) store nothing on it
+R11.8 overlapping candidate positions are resolved against the previous accepted instance, never by a mask over the gaps between
+      neighbouring candidates (`hits[np.diff(hits) >= n]`), which loses instances of a self-overlapping residue signature
 """
 from __future__ import annotations
 
@@ -47,6 +49,7 @@ def run(ctx: Ctx):
     ctx.attempt("R11.5", lambda: r11_5(ctx))
     ctx.attempt("R11.6", lambda: r11_6(ctx))
     ctx.attempt("R11.7", lambda: r11_7(ctx))
+    ctx.attempt("R11.8", lambda: r11_8(ctx))
 
 
 def r11_7(ctx: Ctx, rule="R11.7"):
@@ -737,3 +740,91 @@ def r11_5(ctx: Ctx, rule="R11.5"):
         else:
             ctx.ob(rule, chk, "atom-by-atom comparison", True, "the comparison is not written as nested loops with a running index; "
                    "not decided on this tree", undecided=True, node=chk.node)
+
+
+# ----------------------------------------------------------------------------------------------------------------
+# R11.8  overlapping fits are resolved greedily, not pairwise
+
+def pairwise_overlap_filters(fn: ast.AST):
+    """`H[mask]` (or np.delete / np.compress over H) where the mask compares `np.diff(H)` (or `H[1:] - H[:-1]`) with a
+    length: every candidate position is kept or dropped by its gap to the previous *candidate*.  The scan the property
+    describes drops a candidate that overlaps the previous *accepted* instance; on a run of three or more mutually
+    overlapping candidates (a species whose residue signature repeats) the two differ: positions 0,1,2,3 with length 2
+    give {0} pairwise and {0, 2} greedily."""
+    def diff_of(e):
+        if isinstance(e, ast.Call) and call_name(e) in ("diff", "ediff1d") and e.args and isinstance(e.args[0], ast.Name):
+            return e.args[0].id
+        if isinstance(e, ast.BinOp) and isinstance(e.op, ast.Sub) and isinstance(e.left, ast.Subscript) and isinstance(e.right, ast.Subscript) \
+                and isinstance(e.left.value, ast.Name) and isinstance(e.right.value, ast.Name) and e.left.value.id == e.right.value.id \
+                and norm(e.left.slice) == "1:" and norm(e.right.slice) == ":-1":
+            return e.left.value.id
+        return None
+
+    def gap_tests(e):
+        out = set()
+        for c in ast.walk(e):
+            if isinstance(c, ast.Compare) and len(c.ops) == 1 and isinstance(c.ops[0], (ast.GtE, ast.Gt, ast.Lt, ast.LtE)):
+                for side in (c.left, c.comparators[0]):
+                    h = diff_of(side)
+                    if h:
+                        out.add(h)
+        return out
+    masks: Dict[str, Set[str]] = {}
+    for _ in range(3):
+        for s in walk_no_nested(fn):
+            if not isinstance(s, ast.Assign) or len(s.targets) != 1:
+                continue
+            t = s.targets[0]
+            base = t.id if isinstance(t, ast.Name) else (t.value.id if isinstance(t, ast.Subscript) and isinstance(t.value, ast.Name) else None)
+            if base is None:
+                continue
+            hs = gap_tests(s.value)
+            for n in ast.walk(s.value):
+                if isinstance(n, ast.Name) and n.id in masks:
+                    hs |= masks[n.id]
+            if hs:
+                masks.setdefault(base, set()).update(hs)
+    hits = []
+    for n in walk_no_nested(fn):
+        h = sel = None
+        if isinstance(n, ast.Subscript) and isinstance(n.ctx, ast.Load) and isinstance(n.value, ast.Name):
+            h, sel = n.value.id, n.slice
+        elif isinstance(n, ast.Call) and call_name(n) in ("delete", "compress", "extract") and len(n.args) >= 2:
+            a, b = n.args[0], n.args[1]
+            if call_name(n) == "delete" and isinstance(a, ast.Name):
+                h, sel = a.id, b
+            elif isinstance(b, ast.Name):
+                h, sel = b.id, a
+        if h is None:
+            continue
+        hs = gap_tests(sel)
+        for m in ast.walk(sel):
+            if isinstance(m, ast.Name) and m.id in masks:
+                hs |= masks[m.id]
+        if h in hs:
+            hits.append(n)
+    return hits
+
+
+def r11_8(ctx: Ctx, rule="R11.8"):
+    from ..fixtures import check_fixture
+    check_fixture(ctx, rule, "pairwise.py", lambda repo: sum(len(pairwise_overlap_filters(f_.node)) for f_ in repo.funcs.values()), expect_exact=3)
+    cls = ctx.repo.cls("System")
+    n = 0
+    for f in cls.methods.values():
+        if not any(isinstance(x, ast.Attribute) and attr_chain(x) in ("self._available_mgro_ordered", "self._molecules_ordered")
+                   for x in ast.walk(f.node)):
+            continue
+        n += 1
+        ctx.seen(f)
+        hits = pairwise_overlap_filters(f.node)
+        if hits:
+            ctx.ob(rule, f, hits[0], False,
+                   "a candidate position that overlaps the previous *accepted* instance is skipped (the scan advances by the "
+                   "molecule's length after a match) -- `%s` keeps or drops every candidate by its gap to the previous *candidate*: on "
+                   "three or more mutually overlapping candidates (a residue signature that repeats) later instances are lost"
+                   % norm(hits[0])[:80], node=hits[0])
+        else:
+            ctx.ob(rule, f, "candidate filters", True, "no list of candidate positions is filtered by the gaps between "
+                   "neighbouring candidates", node=f.node)
+    ctx.floor(rule, n, 2, "methods of System reading the residue table / block list")
